@@ -437,3 +437,20 @@ Theorem gej_add_ge_correct : forall inf x0 x1 x2 x3 x4 y0 y1 y2 y3 y4 z0 z1 z2 z
     (add_ge_post inf x0 x1 x2 x3 x4 y0 y1 y2 y3 y4 z0 z1 z2 z3 z4 bx0 bx1 bx2 bx3 bx4 by0 by1 by2 by3 by4).
 Proof. exact Kernel.GejAddGe.gej_add_ge_correct. Qed.
 Print Assumptions gej_add_ge_correct.
+
+(* ---- 32-bit-limb configuration: zero test, conditional move and the constant-time unified addition ---- *)
+Require Import Kernel.Field10x26Ntz Kernel.GejAddGe32 Gen.fe10x26_ntz Gen.fe10x26_cmov Gen.gej_add_ge32.
+
+Theorem fe10x26_ntz_correct : forall r0 r1 r2 r3 r4 r5 r6 r7 r8 r9,
+  0 <= r0 < 2^31 -> 0 <= r1 < 2^31 -> 0 <= r2 < 2^31 -> 0 <= r3 < 2^31 -> 0 <= r4 < 2^31 -> 0 <= r5 < 2^31 -> 0 <= r6 < 2^31 -> 0 <= r7 < 2^31 -> 0 <= r8 < 2^31 -> 0 <= r9 < 2^27 ->
+  fe10x26_ntz r0 r1 r2 r3 r4 r5 r6 r7 r8 r9 = if (val10 r0 r1 r2 r3 r4 r5 r6 r7 r8 r9) mod P256 =? 0 then 1 else 0.
+Proof. exact Kernel.Field10x26Ntz.fe10x26_ntz_correct. Qed.
+Print Assumptions fe10x26_ntz_correct.
+
+Theorem gej_add_ge32_correct : forall inf x0 x1 x2 x3 x4 x5 x6 x7 x8 x9 y0 y1 y2 y3 y4 y5 y6 y7 y8 y9 z0 z1 z2 z3 z4 z5 z6 z7 z8 z9 bx0 bx1 bx2 bx3 bx4 bx5 bx6 bx7 bx8 bx9 by0 by1 by2 by3 by4 by5 by6 by7 by8 by9,
+  (inf = 0 \/ inf = 1) ->
+  bnd32 8 8 x0 x1 x2 x3 x4 x5 x6 x7 x8 x9 -> bnd32 8 8 y0 y1 y2 y3 y4 y5 y6 y7 y8 y9 -> bnd32 16 16 z0 z1 z2 z3 z4 z5 z6 z7 z8 z9 -> bnd32 16 16 bx0 bx1 bx2 bx3 bx4 bx5 bx6 bx7 bx8 bx9 -> bnd32 16 16 by0 by1 by2 by3 by4 by5 by6 by7 by8 by9 ->
+  gej_add_ge32_k inf x0 x1 x2 x3 x4 x5 x6 x7 x8 x9 y0 y1 y2 y3 y4 y5 y6 y7 y8 y9 z0 z1 z2 z3 z4 z5 z6 z7 z8 z9 bx0 bx1 bx2 bx3 bx4 bx5 bx6 bx7 bx8 bx9 by0 by1 by2 by3 by4 by5 by6 by7 by8 by9
+    (add_ge_post32 inf x0 x1 x2 x3 x4 x5 x6 x7 x8 x9 y0 y1 y2 y3 y4 y5 y6 y7 y8 y9 z0 z1 z2 z3 z4 z5 z6 z7 z8 z9 bx0 bx1 bx2 bx3 bx4 bx5 bx6 bx7 bx8 bx9 by0 by1 by2 by3 by4 by5 by6 by7 by8 by9).
+Proof. exact Kernel.GejAddGe32.gej_add_ge32_correct. Qed.
+Print Assumptions gej_add_ge32_correct.
